@@ -19,7 +19,7 @@
           order fails on a file whose chunks are adjacent (ex_descending_run; the real package gives
           the same sequence);
         - file order: chunks in summary order, messages in chunk order (C16_seek_file_order). *)
-From Mcap Require ConstsTie LayoutTie. (* regenerated ties to /repo's source that this property's model relies on *)
+From Mcap Require ConstsTie LayoutTie PyDecisionTie. (* regenerated ties to /repo's source that this property's model relies on *)
 From Coq Require Import List NArith ZArith Bool Arith Permutation Sorted.
 From Coq.Strings Require Import Byte.
 From Mcap Require Import Bytes GoSem Crc32 Records Py PySeekFacts.
